@@ -68,7 +68,7 @@ func (g *tgen) condWriteOp(rt *rapid.T, db *model.DB, allowRetOnFail bool) model
 	return normOp(op)
 }
 
-const ruleC05 = "rapid: generated schema (0-2 indexes), table populated with 0-6 items through a write history, then conditional PutItem / UpdateItem / DeleteItem on pool keys whose condition (existence guards on the key, comparisons, functions, compounds) is generated over the target's stored item or over another stored item, and twins of earlier conditions that differ only in the letter case of one attribute name or placeholder; both SDK clients against the reference model: the write is applied iff the model evaluates the condition true on the target's own stored item (empty item if none); on refusal the error class is ConditionalCheckFailed, the complete internal snapshot (table, every index) is unchanged, and (v2 UpdateItem, when requested) the carried item equals the stored item; after every step full scans of table and indexes are compared. Non-trivial = conditional write for which some other stored item evaluates the condition differently from the target; distinct = hash of (table contents, request)."
+const ruleC05 = "rapid: generated schema (0-2 indexes), table populated with 0-6 items through a write history, then conditional PutItem / UpdateItem / DeleteItem on pool keys whose condition (existence guards on the key, comparisons, functions, compounds) is generated over the target's stored item or over another stored item, twins of earlier conditions that differ only in the letter case of one attribute name or placeholder, and earlier requests repeated with values of the same shape and other contents; both SDK clients against the reference model: the write is applied iff the model evaluates the condition true on the target's own stored item (empty item if none); on refusal the error class is ConditionalCheckFailed, the complete internal snapshot (table, every index) is unchanged, and (v2 UpdateItem, when requested) the carried item equals the stored item; after every step full scans of table and indexes are compared. Non-trivial = conditional write for which some other stored item evaluates the condition differently from the target; distinct = hash of (table contents, request)."
 
 // TestC05 decides property C05.
 func TestC05(t *testing.T) {
@@ -171,6 +171,23 @@ func TestC05(t *testing.T) {
 				st.Class("case-twin-of-an-earlier-condition")
 				condWrite(rt, normOp(op))
 			},
+			"valueTwin": func(rt *rapid.T) {
+				// an earlier condition again - same text, same placeholder names -
+				// with values of the same shape (same map field names, list
+				// lengths, types) and other contents
+				if lastCond == nil || len(lastCond.Values) == 0 {
+					return
+				}
+				op := *lastCond
+				op.Values = valueTwin(rt, lastCond.Values, o)
+				if op.Kind == "Put" {
+					op.Item = g.item(rt)
+				} else {
+					op.Key = g.key(rt)
+				}
+				st.Class("value-twin-of-an-earlier-request")
+				condWrite(rt, normOp(op))
+			},
 			"put": func(rt *rapid.T) {
 				_, _, f := w.do(model.Op{Kind: "Put", Table: s.Table, Item: g.item(rt)})
 				fail(f)
@@ -222,7 +239,7 @@ func (g *tgen) failingOp(rt *rapid.T, db *model.DB) (model.Op, string) {
 	if classes == nil {
 		classes = []string{"missing-key-attr", "wrong-typed-key", "unknown-table", "unused-placeholder", "malformed-placeholder",
 			"failed-condition", "malformed-expression", "ill-typed-update", "last-action-fails", "index-key-type-put", "index-key-type-update",
-			"batch-unknown-table", "batch-bad-key", "batch-index-key-type", "key-attr-update", "oversized-index-key"}
+			"batch-unknown-table", "batch-bad-key", "batch-index-key-type", "key-attr-update", "oversized-index-key", "malformed-update"}
 	}
 	class := rapid.SampledFrom(classes).Draw(rt, "failClass")
 	key := g.key(rt)
@@ -380,6 +397,16 @@ func (g *tgen) failingOp(rt *rapid.T, db *model.DB) (model.Op, string) {
 		pos := rapid.IntRange(0, len(reqs)).Draw(rt, "badPos")
 		reqs = append(reqs[:pos:pos], append([]model.WriteReq{bad}, reqs[pos:]...)...)
 		return model.Op{Kind: "BatchWrite", Batch: []model.TableBatch{{Table: g.s.Table, Reqs: reqs}}}, class
+	case "malformed-update":
+		// an update expression that is not a sentence of the grammar, without a
+		// condition (so that no other defect of the request competes with it)
+		text := rapid.SampledFrom([]string{"SET extra = :x SET b = :x", "SET extra = :x REMOVE", "extra SET extra = :x", "SET extra = :x,", "SET = :x", "SET extra :x",
+			"ADD extra", "REMOVE extra, SET b = :x", "SET extra = :x b = :x", "DELETE extra :x :x"}).Draw(rt, "malformedUpdate")
+		op := model.Op{Kind: "Update", Table: g.s.Table, Key: key, Update: text}
+		if strings.Contains(text, ":x") {
+			op.Values = map[string]model.AV{":x": model.Str("y")}
+		}
+		return op, class
 	case "oversized-index-key":
 		// an index key value beyond DynamoDB's size limits (1024 bytes for a sort
 		// key, 2048 for a partition key), at and just above the boundary
@@ -465,7 +492,7 @@ func mergeUpdates(a, b model.Update) model.Update {
 	return out
 }
 
-const ruleC08 = "rapid state machine: C01/C03-style write history on a table with 0-3 indexes, in which about half of the steps are requests built to fail, one generator per error class (missing / wrongly typed key attribute, unknown table, unused or malformed placeholder, failed condition, token-mutated expression, ill-typed update, multi-action update whose last action fails, index-key type mismatch on Put and Update, index key values at and above DynamoDB's size limits, failing sub-request inside a batch (malformed key, index-key type mismatch), update of a key attribute, any request under emulated failure), plus UpdateTable index creation on the populated table (on attributes that stored items hold with another type; re-declaring the type of an index key attribute); for every request that the implementation rejects (error or documented panic) the complete internal snapshot of every table and index and the full observable state are compared before and after on both SDK clients. Once a request that the reference model expects to fail is accepted by the implementation (whether it must fail is decided by C09/C13/C16, not here) the model can no longer follow the state: the rest of the history is sent without model, and only the no-trace comparison of the internal snapshots around every failing request continues. Non-trivial = a failing request executed against a non-empty table that has at least one index; distinct = hash of the operation list."
+const ruleC08 = "rapid state machine: C01/C03-style write history on a table with 0-3 indexes, in which about half of the steps are requests built to fail, one generator per error class (missing / wrongly typed key attribute, unknown table, unused or malformed placeholder, failed condition, token-mutated expression, ill-typed update, multi-action update whose last action fails, index-key type mismatch on Put and Update, index key values at and above DynamoDB's size limits, failing sub-request inside a batch (malformed key, index-key type mismatch), update of a key attribute, malformed update text, any request under emulated failure), plus UpdateTable index creation on the populated table (on attributes that stored items hold with another type; re-declaring the type of an index key attribute); for every request that the implementation rejects (error or documented panic) the complete internal snapshot of every table and index and the full observable state are compared before and after on both SDK clients. Once a request that the reference model expects to fail is accepted by the implementation (whether it must fail is decided by C09/C13/C16, not here) the model can no longer follow the state: the rest of the history is sent without model, and only the no-trace comparison of the internal snapshots around every failing request continues. Non-trivial = a failing request executed against a non-empty table that has at least one index; distinct = hash of the operation list."
 
 // TestC08 decides property C08.
 func TestC08(t *testing.T) {
